@@ -673,6 +673,7 @@ func TestBounded_C07(t *testing.T) {
 				break
 			}
 			added, removed := map[string]bool{}, map[string]bool{}
+			addedN, removedN := map[string]int{}, map[string]int{}
 			st.reset()
 			st.failLoad = n
 			derr := func() (err error) {
@@ -685,8 +686,10 @@ func TestBounded_C07(t *testing.T) {
 					if name, ok := link.(string); ok {
 						if rem {
 							removed[name] = true
+							removedN[name]++
 						} else {
 							added[name] = true
+							addedN[name]++
 						}
 					}
 					return true, nil
@@ -702,6 +705,16 @@ func TestBounded_C07(t *testing.T) {
 			faults++
 			if derr != nil {
 				continue // the fault was reported: fine
+			}
+			for name, c := range addedN {
+				if c > 1 || !reachNew[name] || reachOld[name] {
+					bViolation(t, "C07", "added-wrong-after-fault", "seed=%d bf=%d: the %d-th store Load failed once during DiffLinks; DiffLinks returned no error and reported %s as added %d times (in new version: %v, in old version: %v)", seed, bf, n, name, c, reachNew[name], reachOld[name])
+				}
+			}
+			for name, c := range removedN {
+				if c > 1 || !reachOld[name] || reachNew[name] {
+					bViolation(t, "C07", "removed-wrong-after-fault", "seed=%d bf=%d: the %d-th store Load failed once during DiffLinks; DiffLinks returned no error and reported %s as removed %d times (in old version: %v, in new version: %v)", seed, bf, n, name, c, reachOld[name], reachNew[name])
+				}
 			}
 			for name := range reachNew {
 				if !reachOld[name] && !added[name] {
